@@ -178,7 +178,11 @@ pub fn wait_fg_job(sh: &mut shell::Shell, gid: i32, pids: &[i32]) -> CommandResu
                 mark_job_member_stopped(sh, pid, 0, false);
             }
         } else if ws.is_continued() {
-            if !is_a_fg_child {
+            if is_a_fg_child {
+                // a member of the job waited for runs again: its stopped
+                // mark must not count when another member stops later
+                sh.mark_job_member_continued(pid, gid);
+            } else {
                 signals::insert_cont_map(pid);
             }
             continue;
